@@ -10,13 +10,13 @@ Model of gomacro's code completion:
 Transcription rules
 * A Go string is the list of its Unicode code points (`Str = List Nat`); the code assumes valid
   UTF-8 (the line comes from liner as []rune).  Go's `<` on strings (bytewise) coincides with the
-  lexicographic order of code points for valid UTF-8 (`ltS`).  Byte lengths appear only at the
-  interface: the cursor `pos` of `Interp.CompleteWords` is a BYTE index (`splitAtByte`), and the
-  driver reports `len(head)`/`len(tail)` in bytes (`utf8Len`).  Inside, `len(a) != len(b)` and
-  `pos >= fixed` compare a string with one of its own suffixes / two offsets in the same string,
-  so comparing code point counts is equivalent.
-  A cursor inside a multi-byte sequence makes `[]rune(head)` end with U+FFFD (not a letter, digit
-  or blank): modelled by appending the code point 0xFFFD to the head (`splitAtByte`).
+  lexicographic order of code points for valid UTF-8 (`ltS`).  The cursor `pos` of
+  `Interp.CompleteWords` is an index in runes (the loop over `utf8.DecodeRuneInString` converts it
+  to a byte offset on a rune boundary): `head = line.take pos`, `tail = line.drop pos`; a negative
+  `pos` leaves the loop at once (offset 0), a `pos` past the end stops at `len(line)`.
+  Byte lengths appear only in the driver, which reports `len(head)`/`len(tail)` (`utf8Len`).
+  Inside, `len(a) != len(b)` and `pos >= fixed` compare a string with one of its own suffixes /
+  two offsets in the same string, so comparing code point counts is equivalent.
 * `unicode.IsLetter/IsDigit/IsSpace` for code points >= 0x80 are parameters (`Classes`).
 * Go maps (`Comp.Binds`, `Comp.Types`, `Import.Binds`, `Import.Types`) are association lists with
   replace-on-insert; iteration order of a map is unspecified in Go and is the list order here --
@@ -26,7 +26,9 @@ Transcription rules
 * Types: every struct type is a named type `Ty.named id` (index into the type table `tbl`);
   `Ty.basic` stands for every type without fields and methods (int, func, slice, ...);
   `Ty.iface ms` is an unnamed interface type; `Ty.invalid` is the nil `xr.Type` of the bind `nil`
-  (touching it panics; `Interp.CompleteWords` recovers and returns "", nil, "").
+  (`if t == nil { return nil }` in listFieldsAndMethods and completeWords; a pointer to it does not
+  exist in Go -- the model keeps `none` = panic there, `Interp.CompleteWords` would recover and
+  return "", nil, "").
   For a named interface type `TypeDef.under = .iface ms` holds the full method set.
   `acc` on a field/method = "visible from package main" (exported, or declared in main): this is
   what the QName comparison of matchFieldByName/matchMethodByName decides.
@@ -67,22 +69,19 @@ def isDigitCh (cl : Classes) (ch : Nat) : Bool :=
 def isSpaceCh (cl : Classes) (ch : Nat) : Bool :=
   if ch < 0x80 then ch == 32 || (9 ≤ ch && ch ≤ 13) else cl.space ch
 
-/-- the loop of TailIdentifier on the reversed string: returns (number of scanned chars, digit) -/
-def tailLoop (cl : Classes) : Str → Bool → Nat → Nat × Bool
-  | [], d, k => (k, d)
-  | ch :: rest, d, k =>
-    if isLetterCh cl ch then tailLoop cl rest false (k + 1)
-    else if isDigitCh cl ch then tailLoop cl rest true (k + 1)
-    else (k, d)
+/-- the loop of TailIdentifier on the reversed string.  `k` = characters scanned so far (n-1-i),
+    `m` = n - start: length of the suffix beginning at the leftmost letter seen so far. -/
+def tailLoop (cl : Classes) : Str → Nat → Nat → Nat
+  | [], _, m => m
+  | ch :: rest, k, m =>
+    if isLetterCh cl ch then tailLoop cl rest (k + 1) (k + 1)   -- start = i
+    else if isDigitCh cl ch then tailLoop cl rest (k + 1) m     -- an identifier cannot start with a digit
+    else m
 
-/-- util.TailIdentifier -/
+/-- util.TailIdentifier: `return string(chars[start:])` -/
 def tailIdentifier (cl : Classes) (s : Str) : Str :=
   if s.isEmpty then s
-  else
-    let (k, d) := tailLoop cl s.reverse false 0
-    -- i = n-1-k ; if digit { i++ } ; return chars[i+1:]
-    let k' := if d then k - 1 else k
-    s.drop (s.length - k')
+  else s.drop (s.length - tailLoop cl s.reverse 0 0)
 
 /-- strings.Split(s, sep) for a one-character separator -/
 def splitOn (sep : Nat) : Str → List Str
@@ -248,9 +247,9 @@ def visitFields (tbl : Table) (pre : Str) : Nat → List Ty → List Nat → Lis
     | some (id, fs, rest) =>
       emitFields tbl pre fs ++ visitFields tbl pre fuel (rest ++ anonTypes fs) (id :: seen)
 
-/-- Comp.listFieldsAndMethods; `none` = panic (nil type) -/
+/-- Comp.listFieldsAndMethods; `none` = panic -/
 def listFieldsAndMethods (tbl : Table) (t : Ty) (pre : Str) : Option (List Str) :=
-  if kindOf tbl t == .invalid then none
+  if kindOf tbl t == .invalid then some []      -- if t == nil { return nil }
   else
     let t1 := if kindOf tbl t == .ptr then elemOf t else t
     if kindOf tbl t == .ptr && kindOf tbl t1 == .iface then some []
@@ -483,7 +482,7 @@ def completeWords (st : State) : Node → Nat → List Str → Out
         | some t => completeWords st (.typ t) (i + 1) (w2 :: ws)
         | none => .ok []
   | .typ t, i, w :: w2 :: ws =>
-    if kindOf st.tbl t == .invalid then .panic
+    if kindOf st.tbl t == .invalid then .ok []      -- if obj == nil { return nil }
     else
       let obj := if kindOf st.tbl t == .ptr && kindOf st.tbl (elemOf t) == .struct then elemOf t else t
       match tryLookupFieldOrMethod st.tbl obj w with
@@ -550,36 +549,22 @@ def utf8Len (c : Nat) : Nat :=
 
 def byteLen (s : Str) : Nat := (s.map utf8Len).foldl (· + ·) 0
 
-/-- `line[:pos]`, `line[pos:]` for a byte index.  Returns (head as seen by []rune(head), exact?) :
-    a cut inside a multi-byte sequence leaves invalid bytes, decoded as U+FFFD. -/
-def splitAtByte : Str → Nat → Str × Str × Bool
-  | [], _ => ([], [], true)
-  | c :: cs, pos =>
-    if pos == 0 then ([], c :: cs, true)
-    else if pos < utf8Len c then ([0xFFFD], cs, false)
-    else
-      let (h, t, e) := splitAtByte cs (pos - utf8Len c)
-      (c :: h, t, e)
-
 inductive Answer where
   | panic
   | ok (headLen : Nat) (completions : List Str) (tailLen : Nat)
   deriving Repr
 
-/-- Interp.CompleteWords(line, pos) observed as (len(head), completions, len(tail)) in bytes. -/
+/-- the loop `for i := 0; i < pos && bytepos < len(line); i++` : the number of runes before the cut -/
+def cutIndex (line : Str) (pos : Int) : Nat := min pos.toNat line.length
+
+/-- Interp.CompleteWords(line, pos): `none` = a panic was recovered -/
+def interpComplete (cl : Classes) (kw : List Str) (st : State) (line : Str) (pos : Int) : Option Result :=
+  completeAt cl kw st (line.take (cutIndex line pos)) (line.drop (cutIndex line pos))
+
+/-- observed as (len(head), completions, len(tail)) in bytes -/
 def interpCompleteWords (cl : Classes) (kw : List Str) (st : State) (line : Str) (pos : Int) : Answer :=
-  if pos < 0 then .panic     -- line[:pos] panics; recovered: "", nil, ""
-  else
-    let total := byteLen line
-    let pos := if pos.toNat > total then total else pos.toNat
-    let (head, tail, exact) := splitAtByte line pos
-    match completeAt cl kw st head tail with
-    | none => .panic
-    | some r =>
-      if exact then .ok (byteLen r.head) r.completions (byteLen r.tail)
-      else
-        -- cut inside a rune: the last word ends with U+FFFD, TailIdentifier is empty, the
-        -- completions are empty and head = line[:pos] is returned unchanged
-        .ok pos r.completions (total - pos)
+  match interpComplete cl kw st line pos with
+  | none => .panic
+  | some r => .ok (byteLen r.head) r.completions (byteLen r.tail)
 
 end Complete
